@@ -187,6 +187,41 @@ def model_calls(kind, vs, vt, r):
     return [c + (expected.get(c[0]),) for c in calls]
 
 
+def mcall_of(name, m):
+    """the call of the store model (`MCall`) that a harness call exercises"""
+    if name in ('copy()', 'copy.copy', 'spin.copy / binary.copy'):
+        return 'copy'
+    if name in ('copy.deepcopy', 'copy(deep=True)'):
+        return 'deepcopy'
+    if name in ('pickle', 'from_serializable(to_serializable)'):
+        return 'pickle'
+    if name in ('construction from a model', 'BinaryQuadraticModel(model)', 'DictBQM(model)', 'BinaryQuadraticModel(model, vartype)', 'as_bqm(copy=True)',
+                'QuadraticModel.update into new'):
+        return 'construct'
+    if name in ('QuadraticModel.from_bqm', 'ConstrainedQuadraticModel.from_bqm', 'ConstrainedQuadraticModel.from_quadratic_model'):
+        return 'frommodel'
+    if name == 'relabel_variables(inplace=False)':
+        return 'relabelcopy'
+    if name == 'relabel_variables_as_integers(inplace=False)':
+        return 'relabelintscopy'
+    if name.startswith('change_vartype('):
+        return 'changevartypecopy'
+    if name.startswith('fix_variables('):
+        return 'fixvariablescopy'
+    if name == 'spin_to_binary(inplace=False)':
+        has_spin = any(m.vartype(v) is dimod.SPIN for v in m.variables)
+        return f'spintobinarycopy {int(has_spin)}'
+    if name == '__radd__(number)':
+        return 'radd 1'
+    if name in ('__neg__',):
+        return 'neg'
+    if name == '__pos__':
+        return 'pos'
+    if name.startswith('__'):
+        return 'arith'
+    return None
+
+
 def model_edits(kind, r, vs, target, k):
     """a random in-place edit script (source lines acting on `target`)"""
     out = []
@@ -469,7 +504,7 @@ def ss_alias_line(env, op):
 
 # ------------------------------------------------------------------ documented aliases
 
-def check_views(ctx, r):
+def check_views(ctx, r, _lines, _expect, _meta):
     src, vs, vt = gen_bqm(r)
     for view in ('spin', 'binary'):
         code = f'v = m.{view}'
@@ -478,6 +513,8 @@ def check_views(ctx, r):
         done = run_lines(env, [ln for ln in lines if 'change_vartype' not in ln])
         ctx.tick('view tracks parent'); ctx.case(('view', view, tuple(done), src), nontrivial=bool(done))
         m, v = env['m'], env['v']
+        if v is not m and m.variables is m.variables:      # (object-dtype models hand out a new KeysView of the same dict on every access)
+            _lines.append('mcall view'); _expect.append(f"ok data={int(getattr(v.data, 'data', v.data) is m.data)} variables={int(v.variables is m.variables)} receiver_unchanged=1"); _meta.append('view')
         if snap(v) != snap(getattr(m, view)) or snap(v)[2:] != snap(m.change_vartype(view.upper(), inplace=False))[2:]:
             ctx.fail('property', f'BinaryQuadraticModel.{view}', 'view does not track its parent', f'after {done!r}: view {snap(v)!r}, parent converted {snap(m.change_vartype(view.upper(), inplace=False))!r}',
                      repro=PRE + src + '\n' + code + '\n' + '\n'.join(done) + f"\nassert snap(v)[2:] == snap(m.change_vartype('{view.upper()}', inplace=False))[2:]", detail=dict(source=src, edits=done))
@@ -532,7 +569,58 @@ def check_add_to_cqm(ctx, r, lines, expect, meta):
                 ctx.fail('property', site, 'edit of the source model visible in the CQM' if side == 0 else 'edit of the CQM visible in the source model', f'after {done!r}',
                          repro=PRE + src + '\n' + code + f'\nw = snap({watched})\n' + '\n'.join(done) + f'\nassert snap({watched}) == w', detail=dict(source=src, call=code, edits=done))
                 break
-    lines.append('model addtocqm'); expect.append('ok data=0 variables=0'); meta.append('add to CQM')
+    # what happens to the source model, against the store model: copy=True leaves it alone, copy=False moves its data
+    if 'DictBQM' not in src:
+        for site, line, code, lhs in [
+            ('ConstrainedQuadraticModel.add_constraint_from_model(copy=True)', 'addcqm constraint 1 -', "m.add_constraint_from_model(b, '<=', 1, label='c0', copy=True)", "m.constraints['c0'].lhs"),
+            ('ConstrainedQuadraticModel.add_constraint(copy=True)', 'addcqm constraint 1 -', "m.add_constraint(b, '==', 0, label='c0', copy=True)", "m.constraints['c0'].lhs"),
+            ('ConstrainedQuadraticModel.add_constraint_from_model(copy=False)', 'addcqm constraint 0 -', "m.add_constraint_from_model(b, '<=', 1, label='c0', copy=False)", "m.constraints['c0'].lhs"),
+        ]:
+            env = fresh(src, 'b0 = copy.deepcopy(b)\nm = dimod.ConstrainedQuadraticModel()\n' + code)
+            b, b0 = env['b'], env['b0']
+            held = eval(lhs, env)
+            obs = (f"ok source_unchanged={int(snap(b) == snap(b0))} source_cleared={int(b.num_variables == 0 and b.offset == 0 and b0.num_variables > 0)} "
+                   f"constraint_holds_data={int(snap(held)[2:] == snap(b0)[2:])}")
+            if b0.num_variables == 0:
+                continue
+            lines.append(line); expect.append(obs); meta.append(site); ctx.tick(site + ' source bits')
+    # add_discrete(comparison, copy, check_overlaps): the two options must reach the callee as given
+    dsrc = "q = dimod.Binary('dA') + dimod.Binary('dB') + dimod.Binary('dC')"
+    for cp in (True,):
+        for co in (True, False):
+            for site, code in [('ConstrainedQuadraticModel.add_discrete(comparison)', f"lab = m.add_discrete(q == 1, label='d0', copy={cp}, check_overlaps={co})"),
+                               ('ConstrainedQuadraticModel.add_discrete_from_comparison', f"lab = m.add_discrete_from_comparison(q == 1, 'd0', {cp}, {co})")]:
+                full = dsrc + '\nq0 = copy.deepcopy(q)\nm = dimod.ConstrainedQuadraticModel()\n' + code
+                env = fresh('', full)
+                q, q0, m = env['q'], env['q0'], env['m']
+                ctx.tick(site); ctx.case((site, cp, co), nontrivial=True)
+                if snap(q) != snap(q0):
+                    ctx.fail('property', site, f'copy={cp}, check_overlaps={co}: source model changed by the call', f'{snap(q0)!r} -> {snap(q)!r}',
+                             repro=PRE + full + '\nassert snap(q) == snap(q0), snap(q)', detail=dict(call=code))
+                    continue
+                # later edits on either side stay private
+                w = snap(m); q.add_linear('dA', 5.0); q.add_variable('dNEW', 1.0)
+                if snap(m) != w:
+                    ctx.fail('property', site, f'copy={cp}, check_overlaps={co}: edit of the source model visible in the CQM', 'after q.add_linear / q.add_variable',
+                             repro=PRE + full + "\nw = snap(m)\nq.add_linear('dA', 5.0)\nassert snap(m) == w", detail=dict(call=code))
+                    continue
+                held = m.constraints['d0'].lhs
+                lines.append(f'addcqm discrete {int(cp)} {int(co)}')
+                expect.append(f"ok source_unchanged=1 source_cleared=0 constraint_holds_data={int(snap(held)[2:] == snap(q0)[2:])}"); meta.append(site)
+
+
+def check_discrete_overlap(ctx):
+    """`check_overlaps=True` must be honoured whatever `copy` is"""
+    for cp in (True, False):
+        code = ("m = dimod.ConstrainedQuadraticModel()\nm.add_discrete(['dA', 'dX'], label='first')\n"
+                "q = dimod.Binary('dA') + dimod.Binary('dB')\n"
+                f"try:\n    m.add_discrete(q == 1, label='d0', copy={cp}, check_overlaps=True)\n    raised = False\nexcept ValueError:\n    raised = True")
+        env = fresh('', code)
+        site = 'ConstrainedQuadraticModel.add_discrete(comparison)'
+        ctx.tick(site + ' overlap'); ctx.case((site, 'overlap', cp), nontrivial=True)
+        if not env['raised']:
+            ctx.fail('property', site, f'copy={cp}, check_overlaps=True: overlapping discrete constraint accepted', 'no ValueError',
+                     repro=PRE + code + '\nassert raised', detail=dict(call=code))
 
 
 def check_variables(ctx, r):
@@ -569,14 +657,18 @@ def run(ctx):
                 env = check_call(ctx, r, 'model', site, full, code, '(m, other)' if two else 'm', plain,
                                  lambda rr, target, kind=kind, vs=vs: model_edits(kind, rr, vs, rr.choice(['m', 'other']) if target.startswith('(') else target, 3),
                                  nscripts, expected=expected)
-                if env is not None and kind != 'cqm' and 'res' in env and hasattr(env['res'], 'data') and hasattr(env['m'], 'data'):
+                if env is not None and 'res' in env and hasattr(env['res'], 'variables'):
                     m, res = env['m'], env['res']
-                    lines.append('model ' + mop)
-                    expect.append(f'ok data={int(res.data is m.data)} variables={int(res.variables is m.variables)}')
-                    meta.append(site)
-        check_views(ctx, r)
+                    call = mcall_of(name, m)
+                    if call is not None and m.variables is m.variables:
+                        handle = (lambda o: getattr(o, 'data', o))
+                        lines.append('mcall ' + call)
+                        expect.append(f'ok data={int(handle(res) is handle(m))} variables={int(res.variables is m.variables)} receiver_unchanged=1')
+                        meta.append(site)
+        check_views(ctx, r, lines, expect, meta)
         check_add_to_cqm(ctx, r, lines, expect, meta)
         check_variables(ctx, r)
+        check_discrete_overlap(ctx)
         src, labels, vt = gen_ss(r)
         m = int(src.split('.reshape(')[1].split(',')[0])
         for site, code, op, plain in ss_calls(r, labels, vt, m):
